@@ -109,4 +109,21 @@ MUTANTS = [
       E("ir/types/types.go", "		if len(t.TypeName) > 0 || len(u.TypeName) > 0 {\n			// Identified struct types are uniqued by type names, not by structural\n			// identity.\n			//\n			// t or u is an identified struct type.\n			return t.TypeName == u.TypeName\n		}\n", "")),
     M("eq-func-ignores-variadic", "C16", ["EQ-1", "FuncType", "Variadic"],
       E("ir/types/types.go", "		return t.Variadic == u.Variadic", "		return true")),
+    # ---- C05: resolution and error discipline ---------------------------------
+    M("lk1-unchecked-lookup", "C05", ["LK-1", "irValue"],
+      E("asm/value.go", "		v, ok := fgen.gen.new.globals[ident]\n		if !ok {\n			return nil, errors.Errorf(\"unable to locate global identifier %q\", ident.Ident())\n		}\n		return v, nil", "		return fgen.gen.new.globals[ident], nil")),
+    M("lk2-miss-returns-fresh", "C05", ["LK-2", "irBlock"],
+      E("asm/helper.go", "	v, ok := fgen.locals[ident]\n	if !ok {\n		return nil, errors.Errorf(\"unable to locate local identifier %q\", ident.Ident())\n	}\n	block, ok := v.(*ir.Block)", "	v, ok := fgen.locals[ident]\n	if !ok {\n		v = &ir.Block{LocalIdent: ident}\n	}\n	block, ok := v.(*ir.Block)")),
+    M("lk2-miss-panics", "C05", ["LK-2", "metadataDefFromID"],
+      E("asm/metadata.go", "		return nil, errors.Errorf(\"unable to locate metadata ID %q\", enc.MetadataID(id))", "		panic(errors.Errorf(\"unable to locate metadata ID %q\", enc.MetadataID(id)))")),
+    M("dup-no-check-comdat", "C05", ["DUP", "comdatDefs"],
+      E("asm/module.go", "			if prev, ok := gen.old.comdatDefs[name]; ok {\n				return errors.Errorf(\"comdat name %q already present; prev `%s`, new `%s`\", enc.ComdatName(name), text(prev), text(entity))\n			}\n", "")),
+    M("dup-local-overwrite", "C05", ["DUP", "addLocal"],
+      E("asm/local.go", "	if prev, ok := fgen.locals[ident]; ok {\n		return errors.Errorf(\"local identifier %q already present; prev `%s`, new `%s`\", ident.Ident(), prev, v)\n	}\n", "")),
+    M("err-swallowed", "C05", ["ERR", "irMetadataAttachments"],
+      E("asm/inst_memory.go", "	md, err := fgen.gen.irMetadataAttachments(old.Metadata())\n	if err != nil {\n		return errors.WithStack(err)\n	}\n	inst.Metadata = md\n	return nil\n}\n\n// --- [ fence ]", "	md, _ := fgen.gen.irMetadataAttachments(old.Metadata())\n	inst.Metadata = md\n	return nil\n}\n\n// --- [ fence ]")),
+    M("err-panics", "C05", ["ERR", "irTypeValue"],
+      E("asm/inst_memory.go", "	src, err := fgen.irTypeValue(old.Src())\n	if err != nil {\n		return errors.WithStack(err)\n	}", "	src, err := fgen.irTypeValue(old.Src())\n	if err != nil {\n		panic(err)\n	}", nth=0)),
+    M("nilmod-partial-module", "C05", ["NILMOD", "translate"],
+      E("asm/translate.go", "	if err := gen.translateUseListOrders(); err != nil {\n		return nil, errors.WithStack(err)\n	}", "	if err := gen.translateUseListOrders(); err != nil {\n		return gen.m, errors.WithStack(err)\n	}")),
 ]
